@@ -131,6 +131,8 @@ fn chained_spec(ctx: &Ctx, shards: usize, which: usize) -> SeqSpec {
         ups(true, Some(4000), false),
         ups(false, Some(2500), false),
         ups(false, Some(500), false),
+        // a time-to-live of zero: the deadline is "now"
+        ups(false, Some(0), false),
         Op::Advance { ms: 1000 },
         Op::Advance { ms: 2000 },
         Op::Advance { ms: 3000 },
